@@ -359,7 +359,8 @@ class Check(core.PropertyCheck):
                 "Conns": frozenset(core.tlaval.FrozenDict(c) for c in conns),
                 "ConnsAlt": frozenset(core.tlaval.FrozenDict(c) for c in alt),
                 "Conns2": frozenset(core.tlaval.FrozenDict(c) for c in conns2_for(tier)),
-                "MaxConns": 2, "Long": frozenset({"long:1", "long:2"}), "BadIdna": frozenset({"badcn:1"})}
+                "MaxConns": 2, "Long": frozenset({"long:1", "long:2"}), "BadIdna": frozenset({"badcn:1"}),
+                "LegacyCnRaises": False, "LegacyCritSan": False}
 
     def model_runs(self, ctx):
         return [ctx.model_check(self.MODEL, self.model_constants(ctx.tier), dump=True)]
@@ -368,7 +369,7 @@ class Check(core.PropertyCheck):
         g = models[0].graph
         rng = random.Random(ctx.seed + 16)
         behs = g.edge_cover(rng, max_len=8, tail=4)
-        behs += g.random_walks(rng, 300 if ctx.quick else 1200, 6)
+        behs += g.random_walks(rng, 100 if ctx.quick else 1200, 6)
         seen = set()
         cands = []
         for b in behs:
@@ -396,7 +397,8 @@ class Check(core.PropertyCheck):
         per_first = 1 if ctx.quick else 3
         for env, cs, pred in cands:
             first = (tuple(env), tuple(sorted((k, str(v)) for k, v in cs[0].items())))
-            hot = cs[0]["addr"] == "none" and cs[0]["sni"] in ("dns:1", "none") and cs[0]["upopt"]
+            hot = cs[0]["addr"] == "none" and cs[0]["sni"] in ("dns:1", "none") and cs[0]["upopt"] \
+                and (not ctx.quick or tuple(env) == ("default", 0))
             if (hot and len(cs) > 1) or have.get(first, 0) < per_first:
                 keep.append((env, cs, pred))
                 have[first] = have.get(first, 0) + 1
@@ -407,7 +409,7 @@ class Check(core.PropertyCheck):
                                 predicted=pred, source="model")
         # beyond the model: more names per certificate, mixed case, longer sequences, random attributes
         rng = random.Random(ctx.seed + 1616)
-        for _ in range(150 if ctx.quick else 1200):
+        for _ in range(100 if ctx.quick else 1200):
             yield core.Scenario(self._random_scenario(rng), source="random")
 
     @staticmethod
